@@ -201,8 +201,11 @@ Fixpoint ci_insert (o : rorder) (x : chunkindex) (l : list chunkindex) : list ch
   end.
 Definition ci_sort (o : rorder) (l : list chunkindex) : list chunkindex := fold_right (ci_insert o) [] l.
 
+(* `(it.end == 0 && it.start == 0)` is how Info asks for every chunk index; a window [0,0) given by
+   the caller takes the same branch *)
 Definition ci_time_ok (ro : ropts) (info_mode : bool) (ci : chunkindex) : bool :=
-  info_mode || (((ci_start ci <? ro_end_n ro) || ro_unbounded ro) && (ro_start_n ro <=? ci_end ci)).
+  info_mode || ((ro_end_n ro =? 0) && (ro_start_n ro =? 0))
+  || (((ci_start ci <? ro_end_n ro) || ro_unbounded ro) && (ro_start_n ro <=? ci_end ci)).
 
 Definition ci_topic_ok (channels : list (N * channel)) (ci : chunkindex) : bool :=
   match ci_mioffsets ci with
